@@ -62,6 +62,10 @@ def evalPostfix (op : String) (id : String) : M Obj := do
         let oerr ← envSet e id nv
         if oerr.isError then pure oerr else pure val
 
+/-- instrumentation only (see `St.hazards`) -/
+def noteHazard (cond : Bool) (klass name : String) : M Unit :=
+  if cond then modify fun st => { st with hazards := (klass ++ ":" ++ name) :: st.hazards } else pure ()
+
 /-- `evalIndexAssigment` -/
 def evalIndexAssignment (which : Node) (index value : Obj) : M Obj := do
   -- registers and references are live pointers: store the values they hold now
@@ -83,10 +87,12 @@ def evalIndexAssignment (which : Node) (index value : Obj) : M Obj := do
           let i : Int := if idx < 0 then n + idx.toInt else idx.toInt
           if i < 0 || i ≥ n then pure (err "index assignment out of bounds")
           else
+            noteHazard (els.length > (← get).cfg.maxSmallArray) "large-array-index-assignment-aliases" id
             let oerr ← envSet e id (newArray (els.set i.toNat value))
             if oerr.isError then pure oerr else pure value
       | .map big kvs =>
         let (big', kvs') ← liftR (mapSet (← get).cfg big kvs index value)
+        noteHazard big "large-map-set-delete-aliases" id
         let oerr ← envSet e id (.map big' kvs')
         if oerr.isError then pure oerr else pure value
       | _ => pure (err "index assignment to unexpected type")
@@ -105,6 +111,7 @@ def deleteMapEntry (left : Node) (index : Obj) : M Obj := do
         match ← liftR (mapDelete kvs index) with
         | none => pure (.bool false)
         | some kvs' =>
+          noteHazard big "large-map-set-delete-aliases" id
           let oerr ← envSet e id (.map big kvs')
           if oerr.isError then pure oerr else pure (.bool true)
       | _ => pure (err "delete index on non map")
@@ -248,6 +255,8 @@ def evalI : Nat → Node → M Obj
           if let .str _ := left then if r.tokType == "LPAREN" then stop (.unmodelled "pipe")
         let right ← eval fuel r
         if right.isError then return right
+        if let .array l := left then
+          noteHazard (op == "PLUS" && l.length > (← get).cfg.maxSmallArray) "large-array-append-shares-capacity" ""
         evalInfixOp op left right
     | .int v => pure (.int v)
     | .float b => pure (.float b)
